@@ -251,6 +251,7 @@ Proof.
   - cbn [second_pass].
     destruct (if v_backlog_chdir (c_var c) then chdir (w_fs w) d else Some cwd) as [cwd1|];
       [|intros E; inversion E; subst; exact H].
+    destruct (backlog_verify (c_var c) (w_fs w) d src dst); [intros E; inversion E; subst; exact H|].
     destruct (renamer c w cwd1 src dst false) as [w1 [e1|]] eqn:R;
       pose proof (WFs_renamer _ _ _ _ _ _ _ _ H R) as H1; [|apply IH; exact H1].
     destruct (is_file_exists e1); [|intros E; inversion E; subst; exact H1].
@@ -880,6 +881,7 @@ Proof.
     pose proof (Forall_inv_tail Hbl) as Hrest.
     inversion E; subst d src dst0. clear E.
     destruct (chdir (w_fs w) (pf_dir f)) as [cwd1|] eqn:Hc; [|intros H; inversion H; subst; exact Tw].
+    destruct (backlog_verify fixed (w_fs w) (pf_dir f) (pf_rel f) dst); [intros H; inversion H; subst; exact Tw|].
     destruct (renamer c w cwd1 (pf_rel f) dst false) as [w1 e1] eqn:Rn.
     assert (Hcw : Forall (good D s) (w_hist w ++ [s]) -> cwd1 = pf_dir f).
     { intros G. rewrite Forall_forall in G. destruct (G (w_fs w)) as [G1 _].
